@@ -39,6 +39,8 @@ fn craft_wm_codes(freq: &mut HashMap<usize, u32>, sigma: usize) -> Vec<PrefixCod
         .collect::<Vec<_>>();
 
     f.sort_by_key(|x| x.1);
+    #[cfg(qwt_verif)]
+    crate::verif::tie_break(&mut f, |x| (x.1, x.0));
 
     let mut c = vec![0; alph_size];
     let mut assignments = vec![PrefixCode { content: 0, len: 0 }; sigma + 1];
@@ -132,6 +134,9 @@ where
             });
 
             let mut lengths = Coding::from_frequencies(BitsPerFragment(1), freqs).code_lengths();
+
+            #[cfg(qwt_verif)]
+            crate::verif::lengths_hook(&mut lengths);
 
             let codes = craft_wm_codes(&mut lengths, sigma.as_());
 
@@ -274,6 +279,12 @@ where
     #[must_use]
     pub fn n_levels(&self) -> usize {
         self.n_levels
+    }
+
+    /// Verification hook: the length of each level.
+    #[cfg(qwt_verif)]
+    pub fn verif_level_lens(&self) -> &[usize] {
+        &self.lens
     }
 
     /// Returns an iterator over the values in the wavelet tree.
